@@ -91,6 +91,14 @@ def pair(draw, m, t, fields, allow_none):
 def cases(draw):
     m = _model()
     t, f = draw(gens.typed_fields(m, search_p=0.2, wide=False))
+    if draw(st.integers(0, 9)) == 0:
+        # a key that exists with an EMPTY value (get_with documents '' as "empty value"): it exists, '~' values replace it
+        cands = [k for k in m.keys(t) if m.accepts_value(t, k, "")]
+        if cands:
+            g = dict(f)
+            g[draw(st.sampled_from(cands))] = ""
+            if m.type_first("/".join(g[k] for k in m.keys(t)))[0] == t:
+                f = g
     s = "/".join(f[k] for k in m.keys(t))
     form = draw(st.sampled_from(["string", "get_with_query", "kwargs", "kwargs", "key_value", "mixed"]))
     n = 1 if form == "key_value" else draw(st.integers(2 if form == "mixed" else 1, 3))
